@@ -501,6 +501,7 @@ impl<'a> Gen<'a> {
             3,  // run to idle
             if self.p.takeover { 2 } else { 0 },
             2, // one batch: publishes followed by a packet that ends the connection
+            if self.p.name == "c09" { 2 } else { 0 }, // fill the window, then a new QoS>0 subscription with retained matches
         ];
         match self.rng.weighted(&w) {
             0 => {
@@ -552,6 +553,44 @@ impl<'a> Gen<'a> {
             }
             12 => {
                 self.run_to_idle();
+            }
+            15 => {
+                // C09: the subscriber's window is (nearly) full of unacknowledged publishes when it
+                // makes a new QoS>0 subscription whose filter matches retained messages
+                let Some(_) = self.sims[i].id else { return };
+                let j = (i + 1) % self.sims.len();
+                if j == i || !self.sims[j].alive || self.sims[j].id.is_none() {
+                    return;
+                }
+                let pk = self.pkid(i);
+                self.push(i, format!("sub {pk} - 1 {} 1", hex(b"w/#")));
+                self.signal(i);
+                // some retained messages on other topics, then the backlog
+                for t in ["r/1", "r/2", "r/3", "r/4", "r/5", "r/6", "r/7", "r/8"] {
+                    self.seq += 1;
+                    let pk = self.pkid(j);
+                    self.push(j, format!("pub 1 {pk} 1 0 {} {} - - 0", hex(t.as_bytes()), hex(format!("m{}", self.seq).as_bytes())));
+                }
+                let n = self.rng.range(93, 104);
+                for _ in 0..n {
+                    self.seq += 1;
+                    let pk = self.pkid(j);
+                    self.push(j, format!("pub 1 {pk} 0 0 {} {} - - 0", hex(b"w/x"), hex(format!("m{}", self.seq).as_bytes())));
+                }
+                self.signal(j);
+                for _ in 0..6 {
+                    self.op("consume".into());
+                }
+                // no drain, no ack: now the new subscription
+                let pk = self.pkid(i);
+                self.push(i, format!("sub {pk} - 1 {} 1", hex(b"r/+")));
+                self.signal(i);
+                for _ in 0..4 {
+                    self.op("consume".into());
+                }
+                self.drain(i);
+                self.drain(i);
+                self.st.tag("window-then-subscribe");
             }
             14 => {
                 // accepted publishes and the connection's end handled in ONE device-data batch
